@@ -266,8 +266,9 @@ Definition phases_differ (c : c16case) : option rreq :=
    second branch before it exists, or a version that is still open *)
 Definition all_ops (c : c16case) : list op :=
   map ob_op (c_hist c) ++ [OpCommit; OpNewVersion] ++ map ob_op (c_tail c) ++ flat_map (fun p => map ob_op (fst p)) (c_phases c).
+(* [br]: length of the branch chain, whether its head is committed, the master version it left *)
 Fixpoint hazard_walk (ops : list op) (cfg : config) (mlen : nat) (mlocked : bool)
-         (br : option (nat * bool)) : bool :=
+         (br : option (nat * bool * nat)) : bool :=
   match ops with
   | [] => false
   | o :: r =>
@@ -278,16 +279,21 @@ Fixpoint hazard_walk (ops : list op) (cfg : config) (mlen : nat) (mlocked : bool
           || existsb (fun ref => match ref with
                                  | VM a => negb (Nat.ltb a mlen || (Nat.eqb a mlen && mlocked))
                                  | VB i => match br with
-                                           | Some (bl, bk) => negb (Nat.ltb i bl || (Nat.eqb i bl && bk))
+                                           | Some (bl, bk, _) => negb (Nat.ltb i bl || (Nat.eqb i bl && bk))
                                            | None => false end
                                  end) (cfg_static cfg)
+          (* the committed leaf of master has a child on the branch only: after the restart the
+             repo manager no longer finds the head of master (reported to C03/C07), and
+             initMemoryDB registers an empty db for it *)
+          || match br with Some (_, _, from) => Nat.eqb from mlen | None => false end
           || hazard_walk r cfg mlen mlocked br
       | OpCommit => hazard_walk r cfg mlen true br
       | OpNewVersion => if mlocked then hazard_walk r cfg (S mlen) false br else hazard_walk r cfg mlen mlocked br
-      | OpBranch _ => hazard_walk r cfg mlen mlocked (match br with None => Some (O, false) | b => b end)
-      | OpOnBranch OpCommit => hazard_walk r cfg mlen mlocked (option_map (fun p : nat * bool => (fst p, true)) br)
+      | OpBranch from => hazard_walk r cfg mlen mlocked (match br with None => Some (O, false, from) | b => b end)
+      | OpOnBranch OpCommit => hazard_walk r cfg mlen mlocked (option_map (fun p : nat * bool * nat => (fst (fst p), true, snd p)) br)
       | OpOnBranch OpNewVersion =>
-          hazard_walk r cfg mlen mlocked (option_map (fun p : nat * bool => if snd p then (S (fst p), false) else p) br)
+          hazard_walk r cfg mlen mlocked
+            (option_map (fun p : nat * bool * nat => if snd (fst p) then (S (fst (fst p)), false, snd p) else p) br)
       | _ => hazard_walk r cfg mlen mlocked br
       end
   end.
